@@ -5,6 +5,7 @@ import (
 	"go/constant"
 	"go/token"
 	"go/types"
+	"os"
 	"sort"
 	"strings"
 
@@ -689,13 +690,37 @@ func (vc *VC) cutLoop(act *Act, h *ssa.BasicBlock, st *State, phiVals map[*ssa.P
 		for phi, v := range phiVals {
 			act.env[phi] = v
 		}
+		for _, d := range lc.EntryDo {
+			env := vc.specEnv(act, st, act.entry, "invariant", h)
+			tv := env.evalTV(d.Expr)
+			st.ghost[d.Name] = vc.def("gh_"+d.Name, "Int", flatten(tv.v)[0])
+		}
 		for n, inv := range lc.Invariants {
+			if os.Getenv("GVC_DEBUG") != "" {
+				fmt.Fprintf(os.Stderr, "cutLoop %s ordinal %d header %s key %s inv %s\n", act.fn, ordinal, h, lc.Key, inv.Text)
+			}
 			f := vc.evalBool(vc.specEnv(act, st, act.entry, "invariant", h), inv)
 			vc.oblige(st, &Obligation{Name: fmt.Sprintf("%s#loop%d#inv-entry#%s", vc.eng.shortName(act.fn), ordinal, clauseName(inv, n)), Kind: "loop-invariant-entry", Clause: inv.Text, Tags: vc.clauseTags(act.fc, inv), Src: fmt.Sprintf("%s:%d", shortFile(inv.File), inv.Line)}, f)
 		}
 	}
 	body := loopBody(h)
 	lf := vc.loopEffects(act, body)
+	// ghost updates attached to loops nested in this one happen inside its body
+	if act.fc != nil {
+		for h2, ord2 := range vc.eng.loopHeaders(act.fn) {
+			if h2 == h || !body[h2] {
+				continue
+			}
+			if lc2 := vc.loopContract(act, h2, ord2); lc2 != nil {
+				for _, d := range lc2.ExitDo {
+					lf.ghosts[d.Name] = true
+				}
+				for _, d := range lc2.EntryDo {
+					lf.ghosts[d.Name] = true
+				}
+			}
+		}
+	}
 	ns := st.clone()
 	if act.loopCutPos == nil {
 		act.loopCutPos = map[*ssa.BasicBlock]int{}
